@@ -189,6 +189,16 @@ pub fn stages(prop: &str, tier: &str) -> Vec<Stage> {
     let mut v = vec![];
     match prop {
         "C03" | "C08" | "C12" => common(&mut v),
+        "C16" | "C17" => {
+            let reader = if prop == "C16" { COp::Show } else { COp::ShowJson };
+            let what = if prop == "C16" { "text" } else { "JSON" };
+            let books: Vec<Book> = if quick { books5.to_vec() } else { vec![Book::B1, Book::B2, Book::B3, Book::B4, Book::B5, Book::B6, Book::B7, Book::B8, Book::B11, Book::B12] };
+            v.push(stage(
+                &format!("a reader that prints the level as {what} and parses it back, against one and two writers"),
+                reader_programs(reader, &books, &alpha, !quick),
+                Some(if quick { 3 } else { 4 }),
+            ));
+        }
         "C13" => {
             common(&mut v);
             for s in v.iter_mut() {
@@ -1076,17 +1086,21 @@ pub fn c15_stats_programs(tier: &str, cap: Duration) -> (u64, u64, Vec<String>, 
 
 /// [Restore || w] for every writer w, and [Restore || w1 || w2] (all pairs when `full`, else pairs with an add)
 fn restore_programs(books: &[Book], alpha: &[COp], full: bool) -> Vec<Program> {
-    let writers: Vec<COp> = alpha.iter().copied().filter(|o| !matches!(o, COp::Read | COp::Restore)).collect();
+    reader_programs(COp::Restore, books, alpha, full)
+}
+
+fn reader_programs(reader: COp, books: &[Book], alpha: &[COp], full: bool) -> Vec<Program> {
+    let writers: Vec<COp> = alpha.iter().copied().filter(|o| !matches!(o, COp::Read | COp::Restore | COp::Show | COp::ShowJson)).collect();
     let mut v = vec![];
     for b in books {
         for (i, w) in writers.iter().enumerate() {
-            v.push(Program { book: *b, threads: vec![vec![COp::Restore], vec![*w]], coarse: vec![] });
+            v.push(Program { book: *b, threads: vec![vec![reader], vec![*w]], coarse: vec![] });
             for w2 in writers.iter().skip(i) {
                 let both_add = matches!(w, COp::Add | COp::AddIce) && matches!(w2, COp::Add | COp::AddIce);
                 if both_add || !(full || matches!(w, COp::Add) || matches!(w2, COp::Add)) {
                     continue;
                 }
-                v.push(Program { book: *b, threads: vec![vec![COp::Restore], vec![*w], vec![*w2]], coarse: vec![] });
+                v.push(Program { book: *b, threads: vec![vec![reader], vec![*w], vec![*w2]], coarse: vec![] });
             }
         }
     }
@@ -1099,6 +1113,8 @@ fn op_from_value(v: &Value) -> COp {
                     "Add" => COp::Add,
                     "AddIce" => COp::AddIce,
                     "Restore" => COp::Restore,
+                    "Show" => COp::Show,
+                    "ShowJson" => COp::ShowJson,
                     _ => COp::Read,
                 };
             }
